@@ -22,7 +22,21 @@ Spec:   MofText.tla      class alphabet; Esc (_mof_escaped), FoldStep (one
                          refutes the variants (MofTextInstMCLegacyNull.cfg
                          must fail) and PRINTS the universe; every printed
                          case becomes one real instance + primed class.
-        MofTextTrace.tla trace validation (TraceKit): verdict per event.
+        MofTextDecl.tla  qualifier declaration level: (A) the scopes
+                         dictionary with its keys in every spelling (upper /
+                         lower / mixed case, False entries) -> Scope(...) text
+                         -> compiled dictionary; (B) one compiler SESSION:
+                         prime / declare / use steps over versions of a
+                         declaration (type, flavors changed), code-shaped
+                         p_mp_setQualifier / p_qualifier with the qualifier
+                         cache, wrong variants
+        MofTextDeclMC.tla  TLC checks both, refutes the variants (two
+                         *Legacy*.cfg must fail) and PRINTS the scope cases
+                         and the session histories; each becomes a real
+                         declaration / a history on ONE real MOFCompiler.
+        MofTextTrace.tla trace validation (TraceKit): verdict per event; the
+                         requirement machine keeps the session's current
+                         declarations as state.
 Binding: (a) vectors <s, indent, maxline, line_pos, end_space, avoid_splits>
         simulated by TLC, the TLC counterexamples and seeded random vectors
         are run on the real mofstr(); TLC compares its output with Fold (drift
@@ -220,9 +234,11 @@ def _p(typ, val, arr=False, quals=(), asize=-1, name="UProp"):
             "emb": "", "quals": list(quals)}
 
 
-def unit(rng, where, typ, shape, val, maxline, qdecl=None, qflv=None):
+def unit(rng, where, typ, shape, val, maxline, qdecl=None, qflv=None,
+         qname=None):
     """one object holding exactly one element/value at position `where`"""
     arr = H.is_arr_shape(shape)
+
     if where == "classqual":
         spec = _cls(rng, maxline, quals=[_q(typ, val, arr, flv=qflv,
                                             decl=qdecl)])
@@ -257,35 +273,56 @@ def unit(rng, where, typ, shape, val, maxline, qdecl=None, qflv=None):
                 "cseed": rng.randint(0, 2**30)}
     else:
         raise ValueError(where)
+    if qname:                   # the one qualifier gets this name
+        for qs in ([spec["quals"]] + [p["quals"] for p in spec["props"]] +
+                   [m["quals"] for m in spec["meths"]] +
+                   [a["quals"] for m in spec["meths"] for a in m["params"]]):
+            for q in qs:
+                q["name"] = qname
     return {"gen": "unit", "where": where, "type": typ, "shape": shape,
             "spec": spec}
 
 
-def _emb_value(rng, shape):
+def _emb_value(rng, shape, depth=1):
     """abstract value of an embedded-object property: small inner instances
-    (the known char16 / apostrophe defects of nested MOF stay out)"""
+    (the known char16 / apostrophe defects of nested MOF stay out); depth 2:
+    the inner instances have an embedded instance property themselves;
+    arraynull: one item of the array is NULL"""
     def one():
-        return {"inst": {"k": "inst", "cls": "EmbCls", "props": [
+        props = [
             _p("uint32", H.rand_value(rng, "uint32", "scalar"), name="EmbU"),
             _p("boolean", H.rand_value(rng, "boolean", "arraynull"), True,
-               name="EmbB")]}}
+               name="EmbB")]
+        if depth == 2:
+            inner = {"inst": {"k": "inst", "cls": "EmbCls2", "props": [
+                _p("uint32", H.rand_value(rng, "uint32", "scalar"),
+                   name="EmbV")]}}
+            props.append(dict(_p("string", inner, name="EmbInner"),
+                              emb="instance"))
+        return {"inst": {"k": "inst", "cls": "EmbCls", "props": props}}
     if shape == "scalar":
         return one()
-    if shape == "array":
-        return [one() for _ in range(rng.randint(1, 3))]
+    if shape in ("array", "arraynull"):
+        vals = [one() for _ in range(rng.randint(1, 3))]
+        if shape == "arraynull":
+            vals.insert(rng.randint(0, len(vals)), None)
+        return vals
     return H.rand_value(rng, "string", shape)     # empty / null / nullarray
 
 
-def classdflt_unit(rng, typ, arr, dflt, gives, shape, emb, pinned, maxline):
+def classdflt_unit(rng, typ, arr, dflt, gives, shape, emb, depth, tag,
+                   maxline):
     """one case of MofTextInst!Universe: an instance whose (primed) class
     declares `dflt` for the property under test, which the instance gives as
     `shape` (or does not have: the anchor property keeps the instance
-    expressible).  `pinned`: TLC says the case is in PinnedEmbCases (embedded
-    object property with a NULL / empty-array initializer, where the
-    unchanged tree is the variant embSkipsFalsy)"""
+    expressible).  `tag`: MofTextInst!CaseTag - "null-or-empty-initializer"
+    (embedded object property with a NULL / empty-array initializer),
+    "nested" (depth 2) and "null-item" (embedded array with a NULL item):
+    for the last two the unchanged tree is the variant that does not round
+    trip"""
     def val(sh):
-        return _emb_value(rng, sh) if emb else H.rand_value(rng, typ, sh,
-                                                            "short")
+        return _emb_value(rng, sh, depth) if emb else H.rand_value(
+            rng, typ, sh, "short")
     cd = {"kind": dflt, "val": None}
     if dflt in ("scalar", "array"):
         cd["val"] = val(dflt)
@@ -300,7 +337,7 @@ def classdflt_unit(rng, typ, arr, dflt, gives, shape, emb, pinned, maxline):
     spec.update(maxline=maxline, cseed=rng.randint(0, 2**30))
     return {"gen": "unit",
             "where": ("instemb" if emb else "instprop") +
-            (".null-or-empty-initializer" if pinned else "") + H.cd_suffix(p),
+            ("." + tag if tag else "") + H.cd_suffix(p),
             "type": typ, "shape": shape, "spec": spec}
 
 
@@ -308,10 +345,10 @@ def classdflt_units(rng, tlc_cases, rounds):
     """every case TLC printed for MofTextInst!Universe, `rounds` times"""
     out = []
     for _ in range(rounds):
-        for typ, arr, dflt, gives, shape, emb, pinned in tlc_cases:
+        for typ, arr, dflt, gives, shape, emb, depth, tag in tlc_cases:
             ml = rng.choice([40, 80, rng.randint(40, 130)])
             out.append(classdflt_unit(rng, typ, arr, dflt, gives, shape, emb,
-                                      pinned, ml))
+                                      depth, tag, ml))
     return out
 
 
@@ -336,6 +373,98 @@ def decorate_inst_tree(rng, spec):
         decl.append(a)
     if decl:
         spec["decl"] = decl
+
+
+# -- qualifier declaration level (spec/MofTextDecl.tla) -----------------------
+
+SCOPE_TYPES = ["string", "uint32", "sint16", "boolean", "real64", "datetime",
+               "uint8", "sint64"]
+
+
+def scope_units(rng, tlc_cases, rounds):
+    """every dictionary TLC printed for MofTextDecl!ScopeCases: a qualifier
+    declaration whose scopes NocaseDict has exactly these entries, keys
+    spelled as the case says"""
+    out = []
+    for _ in range(rounds):
+        for code in tlc_cases:
+            sd = [[H.SCOPES[i], c[0], c[1] == "T"]
+                  for i, c in enumerate(code) if c != "-"]
+            typ = rng.choice(SCOPE_TYPES)
+            shape = rng.choice(["scalar", "scalar", "null", "array"])
+            spec = {"k": "qdecl", "name": "ScopeQD", "type": typ,
+                    "arr": H.is_arr_shape(shape), "asize": -1,
+                    "val": H.rand_value(rng, typ, shape, "short", False),
+                    "scopes": sorted(n for n, _, f in sd if f), "sd": sd,
+                    "flv": {"ovr": rng.choice(H.FLV),
+                            "tosub": rng.choice(H.FLV),
+                            "transl": rng.choice(H.FLV), "toinst": "N"},
+                    "maxline": rng.choice([40, 80, rng.randint(40, 130)]),
+                    "cseed": rng.randint(0, 2**30)}
+            out.append({"gen": "unit", "where": "qdecl.scopekeys",
+                        "type": typ, "shape": shape, "spec": spec})
+    return out
+
+
+def decorate_qdecl_tree(rng, spec):
+    """random qualifier declarations: keys of the scopes dictionary in a
+    random spelling, some more entries that are False"""
+    sd = [[s, rng.choice("UUlM"), True] for s in spec["scopes"]]
+    for s in H.SCOPES:
+        if s not in spec["scopes"] and rng.random() < 0.2:
+            sd.append([s, rng.choice("Ul"), False])
+    rng.shuffle(sd)
+    spec["sd"] = sd
+
+
+SESS_FLV = {"en": {"ovr": "T", "tosub": "T"}, "dis": {"ovr": "F", "tosub": "F"}}
+SESS_VER = {1: ("tA", "en"), 2: ("tB", "en"), 3: ("tB", "dis"),
+            4: ("tA", "dis")}          # MofTextDecl!Ver
+
+
+def session_case(rng, hist, idx):
+    """one history of MofTextDecl!Histories: tA / tB = two different CIM
+    types; a declaration version = (type, flavors) + a default value; `use` =
+    a class with the qualifier (at class / property / method / parameter
+    level) typed and flavored as the version that is in the repository"""
+    types = dict(zip(("tA", "tB"), rng.sample(SCOPE_TYPES, 2)))
+    qnames = {"QA": "SessQ_A%d" % idx, "QB": "SessQ_B%d" % idx}
+    maxline = rng.choice([40, 80, rng.randint(40, 130)])
+    repo, steps = {}, []
+    for k, (op, n, v) in enumerate(hist):
+        if op in ("prime", "declare"):
+            t, f = SESS_VER[v]
+            flv = dict(SESS_FLV[f], transl="N", toinst="N")
+            repo[n] = (types[t], flv)
+            shape = rng.choice(["scalar", "null"])
+            spec = {"k": "qdecl", "name": qnames[n], "type": types[t],
+                    "arr": False, "asize": -1,
+                    "val": H.rand_value(rng, types[t], shape, "short", False),
+                    "scopes": ["ANY"], "flv": flv, "maxline": maxline,
+                    "cseed": rng.randint(0, 2**30)}
+        else:
+            typ, flv = repo[n]
+            where = rng.choice(["classqual", "propqual", "methqual",
+                                "parmqual"])
+            spec = unit(rng, where, typ, "scalar",
+                        H.rand_value(rng, typ, "scalar", "short", False),
+                        maxline, qdecl=dict(flv, dflt=False), qflv=dict(flv),
+                        qname=qnames[n])["spec"]
+            spec["name"] = "SessCls%d" % k
+        steps.append({"step": op, "spec": spec})
+    return {"gen": "session", "where": "session", "type": "", "shape": "",
+            "ops": ".".join(op[0].upper() + n[1] for op, n, _ in hist),
+            "hist": [list(x) for x in hist], "steps": steps}
+
+
+def session_signature(case, at, clauses):
+    """failing clause (without the type), whether TLC recognised a superseded
+    declaration in the compiled qualifier, the history's step pattern"""
+    p = primary(clauses).split(".")
+    p = ".".join(p[:2]) if p[0] == "Flavors" else p[0]
+    stale = "stale-declaration" if "diag.StaleQualifierDeclaration" in \
+        clauses else case["steps"][at - 1]["step"]
+    return "session:%s:%s:%s" % (p, stale, case["ops"])
 
 
 STR_WHERES = ["classqual", "propqual", "methqual", "parmqual", "propdefault",
@@ -509,10 +638,34 @@ def corrupted_copies(events, verdicts):
     return out
 
 
-def validate(ctx, events, label):
+def validate(ctx, events, label, traces=()):
+    """one verdict per event (each its own trace), then one per trace of
+    `traces` (compiler sessions: several events, state kept by the machine)"""
     return ctx.validate_traces("MofTextTrace", "MofTextTrace.cfg",
-                               [[e] for e in events], label=label,
-                               env=JVM_ENV, chunk=3000)
+                               [[e] for e in events] + list(traces),
+                               label=label, env=JVM_ENV, chunk=3000)
+
+
+def stale_copy(case, trace):
+    """vacuity guard for sessions: in an accepted history with a changed
+    redeclaration, the class compiled by the last `use` gets the type of the
+    superseded declaration -> TLC must reject it and name the diagnosis"""
+    import copy
+    decls = {}
+    for st, e in zip(case["steps"], trace):
+        if st["step"] == "use":
+            q = [x for x in e["comp"] if x["et"] == "qual"][0]
+            olds = [t for t in decls.get(q["qn"], [])[:-1] if t != q["type"]]
+            if olds and e is trace[-1]:
+                t = copy.deepcopy(trace)
+                for x in t[-1]["comp"]:
+                    if x["et"] == "qual":
+                        x["type"] = olds[-1]
+                return t
+        else:
+            d = e["orig"][0]
+            decls.setdefault(d["qn"], []).append(d["type"])
+    return None
 
 
 def signature(case, ev, clauses):
@@ -596,14 +749,15 @@ def run(ctx):
                        "x instance gives absent/NULL/value, all 15 types "
                        "(unchanged tree's p_instanceDeclaration); universe "
                        "emitted")
-    inst_cases = [tuple(v[1:8]) for v in ri.printed("CASE")]
+    inst_cases = [tuple(v[1:9]) for v in ri.printed("CASE")]
     if len(inst_cases) < 300 or len(set(inst_cases)) != len(inst_cases) or \
             not all(isinstance(c[1], bool) for c in inst_cases):
         raise vlib.MachineryError("MofTextInstMC universe not emitted: %d"
                                   % len(inst_cases))
     refuted = {v[1]: v[2] for v in ri.printed("REFUTED")}
     if set(refuted) != {"skipNull", "fillAbsent", "omitNull",
-                        "embSkipsFalsy"} or \
+                        "embSkipsFalsy", "embInnerResets",
+                        "embDropsNullItem"} or \
             not all(n > 0 for n in refuted.values()):
         raise vlib.MachineryError("MofTextInstMC variants not refuted: %r"
                                   % (refuted,))
@@ -618,6 +772,46 @@ def run(ctx):
                 "class default replaces a NULL instance value); wrong "
                 "variants refuted inside TLC by %s cases of the universe"
                 % (r.violated, refuted))
+    # qualifier declaration level: scopes dictionary spellings, sessions
+    rd = ctx.tlc("MofTextDeclMC", "MofTextDeclMC.cfg", workers=2,
+                 label="qualifier declarations: every scopes dictionary with "
+                       "<= 3 entries x key spelling (upper/lower/mixed, False "
+                       "entries) -> Scope(...) -> compiled; compiler session "
+                       "(prime/declare/use, 2 names x 4 versions, <= 6 steps) "
+                       "with the qualifier cache; cases and histories emitted")
+    scope_cases = sorted(tuple(v[1]) for v in rd.printed("SCOPECASE"))
+    histories = sorted(tuple(tuple(x) for x in v[1])
+                       for v in rd.printed("HISTORY"))
+    if len(scope_cases) < 100 or len(set(scope_cases)) != len(scope_cases) \
+            or not all(len(c) == len(H.SCOPES) for c in scope_cases) or \
+            len(histories) < 50 or len(set(histories)) != len(histories):
+        raise vlib.MachineryError(
+            "MofTextDeclMC cases not emitted: %d scope cases, %d histories"
+            % (len(scope_cases), len(histories)))
+    refd = {v[1]: v[2] for v in rd.printed("REFUTED")}
+    if set(refd) != {"keyCaseSensitive", "flagIgnored", "cacheSetDefault",
+                     "cacheNotUpdated"} or \
+            not all(n > 0 for n in refd.values()):
+        raise vlib.MachineryError("MofTextDeclMC variants not refuted by the "
+                                  "emitted cases: %r" % (refd,))
+    for cfg, inv, what in (
+            ("MofTextDeclMCLegacyScopeKey.cfg", ("ScopeRoundTrip",),
+             "tomof() tests the upper-case scope names case-sensitively "
+             "against the keys as spelled"),
+            ("MofTextDeclMCLegacyCache.cfg", ("SessionRoundTrip",),
+             "p_mp_setQualifier keeps an already cached declaration "
+             "(setdefault)")):
+        r = ctx.tlc("MofTextDeclMC", cfg, workers=2, must_pass=False,
+                    count=False, label="regression config: " + what)
+        if r.violated not in inv:
+            raise vlib.MachineryError("%s did not violate %s: %s" %
+                                      (cfg, inv, r.violated))
+        sens.append("%s violates %s as required (%s)" % (cfg, r.violated,
+                                                         what))
+    sens.append("wrong variants of the declaration level refuted inside TLC "
+                "by the EMITTED scope cases / histories: %s" % (refd,))
+    ctx.extra["scope_cases"] = len(scope_cases)
+    ctx.extra["session_histories"] = len(histories)
     ctx.extra["instance_universe_cases"] = len(inst_cases)
     ctx.extra["sensitivity"] = sens
     if not quick:
@@ -672,12 +866,26 @@ def run(ctx):
             decorate_inst_tree(rng_cd, t["spec"])
     cases += trees
     cases += classdflt_units(rng_cd, sorted(inst_cases), 1 if quick else 4)
+    # own generator for the declaration level (same reason)
+    rng_qd = random.Random(ctx.seed * 104729 + 8)
+    for t in trees:
+        if t["spec"]["k"] == "qdecl":
+            decorate_qdecl_tree(rng_qd, t["spec"])
+    cases += scope_units(rng_qd, scope_cases, 1 if quick else 4)
+    sessions = [session_case(rng_qd, h, i + 1000 * r)
+                for r in range(1 if quick else 4)
+                for i, h in enumerate(histories)]
 
     # -- 3. real code + TLC verdicts -----------------------------------------------
     comp = H.Comp()
     events, infos = run_cases(cases, comp)
-    verdicts = validate(ctx, events, "verdicts: fold vectors, units, trees")
-    kinds = {}
+    sess_runs = [H.run_session(c["steps"]) for c in sessions]
+    verdicts = validate(ctx, events, "verdicts: fold vectors, units, trees, "
+                        "compiler sessions", [t for t, _ in sess_runs])
+    sess_verdicts = verdicts[len(events):]
+    verdicts = verdicts[:len(events)]
+    kinds = {"session": len(sessions),
+             "session.steps": sum(len(c["steps"]) for c in sessions)}
     for c in cases:
         k = c["gen"] if c["gen"] != "unit" else "unit." + c["where"]
         kinds[k] = kinds.get(k, 0) + 1
@@ -696,16 +904,34 @@ def run(ctx):
     sub_events, sub_infos = run_cases(sub_cases, comp)
     # vacuity guard: corrupted copies of accepted events must be rejected
     corrupt = corrupted_copies(events, verdicts)
+    stale = None
+    for c, (tr, _), v in zip(sessions, sess_runs, sess_verdicts):
+        stale = stale or (v["ok"] and stale_copy(c, tr))
     v2 = validate(ctx, sub_events + [c[0] for c in corrupt],
                   "verdicts: elements of failing trees + corrupted copies of "
-                  "accepted events (must be rejected)")
+                  "accepted events (must be rejected)",
+                  [stale] if stale else [])
     sub_verdicts = v2[:len(sub_events)]
-    ctx.traces -= len(corrupt)
-    ctx.events -= len(corrupt)
+    ctx.traces -= len(corrupt) + (1 if stale else 0)
+    ctx.events -= len(corrupt) + (len(stale) if stale else 0)
     for (cev, expect), v in zip(corrupt, v2[len(sub_events):]):
         if v["ok"] or not any(c.startswith(expect) for c in v["clauses"]):
             raise vlib.MachineryError(
                 "corrupted event (%s) was not rejected: %s" % (expect, v))
+    if stale:
+        v = v2[-1]
+        if v["ok"] or v["at"] != len(stale) or \
+                "diag.StaleQualifierDeclaration" not in v["clauses"]:
+            raise vlib.MachineryError(
+                "session with a superseded declaration's type in the "
+                "compiled class was not rejected as such: %s" % (v,))
+        ctx.extra["sensitivity"].append(
+            "an accepted session whose last compiled class got the type of "
+            "the superseded declaration is rejected by TLC with "
+            "diag.StaleQualifierDeclaration")
+    elif not any(not v["ok"] for v in sess_verdicts):
+        raise vlib.MachineryError("no accepted session with a changed "
+                                  "redeclaration to corrupt")
     ctx.extra["sensitivity"].append(
         "%d corrupted copies of accepted events (altered compiled string, "
         "altered value token, dropped element, flipped flavor) rejected by "
@@ -722,7 +948,29 @@ def run(ctx):
             continue
         nfail += 1
         report(ctx, c, e, inf, v)
-    ctx.extra["objects_compiled"] = comp.total
+    for c, (tr, inf), v in zip(sessions, sess_runs, sess_verdicts):
+        if v["ok"]:
+            if v["n"] != len(c["steps"]):
+                raise vlib.MachineryError("session cut short: %r" % (c,))
+            continue
+        nfail += 1
+        at = v["at"]
+        ctx.report(session_signature(c, at, v["clauses"]),
+                   ("%s; history %s on ONE MOFCompiler / namespace, step %d "
+                    "(%s); %s; MOF: %r" % (
+                        ", ".join(sorted(v["clauses"])), c["hist"], at,
+                        c["steps"][at - 1]["step"],
+                        ("rejected: " + inf[at - 1]["error"][:160])
+                        if inf[at - 1].get("error") else
+                        "compiled: " + str(inf[at - 1].get("compiled"))[:200],
+                        (inf[at - 1].get("text") or "")[:200]))[:900],
+                   {"case": c, "clauses": v["clauses"], "at": at,
+                    "mof_texts": [i.get("text") for i in inf],
+                    "error": inf[at - 1].get("error"),
+                    "original": inf[at - 1].get("orig"),
+                    "compiled": str(inf[at - 1].get("compiled"))[:1500]})
+    ctx.extra["objects_compiled"] = comp.total + sum(
+        len(t) for t, _ in sess_runs)
     ctx.extra["class_properties_declared_through_mof_null"] = dict(
         H.NULL_PRIME)
     ctx.extra["trees_failing_explained_by_elements"] = len(explained)
@@ -763,6 +1011,17 @@ def run(ctx):
         "None, the DSP0004 default or the declaration's flavor",
         "numeric keybindings of reference values are compared by value "
         "(WBEM URIs are untyped)",
+        "qualifier declarations: the scopes dictionary is compared by its "
+        "set of true scopes (the compiler returns all 8 keys); keys are "
+        "spelled in upper / lower / mixed case, entries may be False; an "
+        "empty scope set is not generated (MOF cannot express it)",
+        "compiler sessions: declarations change only through the compiler "
+        "(tomof() text of the changed declaration) or are primed before the "
+        "compiler has been used; a repository changed behind a running "
+        "compiler is not generated; versions differ in type and in "
+        "EnableOverride,ToSubclass / DisableOverride,Restricted; the class "
+        "gives its qualifier the explicit flavors of the current "
+        "declaration",
     ]
 
 
@@ -779,6 +1038,22 @@ def collect_drift(ctx):
 
 def replay(rep):
     case = rep["case"]["case"]
+    if case["gen"] == "session":
+        tr, inf = H.run_session(case["steps"])
+        for st, i in zip(case["steps"], inf):
+            print("-- %s\n%s%s" % (st["step"], i.get("text") or i.get("orig"),
+                                   "\ncompiler: " + i["error"]
+                                   if i.get("error") else ""))
+        ctx = vlib.Ctx(rep["property"] + "_replay", "quick",
+                       rep.get("seed", 0))
+        v = validate(ctx, [], "replay", [tr])[0]
+        print("verdict:", v)
+        if not v["ok"]:
+            print("VIOLATION property=%s replay=(reproduced) %s" %
+                  (rep["property"],
+                   session_signature(case, v["at"], v["clauses"])))
+            return 1
+        return 0
     comp = H.Comp()
     events, infos = run_cases([case], comp)
     print("MOF text:\n%s" % (infos[0].get("text"),))
